@@ -156,6 +156,9 @@ var Steps = []Step{
 	sti("v.copyB", "B", "B", "$y = make([]byte, 16)", "copy($y, $x)"),
 	st("v.reslice", "SL", "SL", "$y = $x[0:len($x)]"),
 	st("v.overwrite", "S", "S", "$y = $x\n$y = \"clean\"").drop(),
+	st("v.catMk", "S", "S", "$y = $x + rt.Mk1()").tag("mk"),
+	st("v.mkOnly", "S", "S", "$y = $PidS(rt.Mk2())\n_ = $x", dIdS).drop().tag("mk"),
+	sti("v.mkField", "S", "PT_F", "$y = &$PT{}", "$y.F = $x\n$y.G = rt.Mk3()", dT).tag("mk"),
 	// struct
 	sti("s.fst", "S", "PT_F", "$y = &$PT{}", "$y.F = $x", dT),
 	st("s.fld", "PT_F", "S", "$y = $x.F", dT),
